@@ -420,6 +420,8 @@ class Gen:
             s["lead"] = self.gapn(False, first=True)
         elif prev["k"] == "label" and not prev["blk"] and s["k"] in ("insn", "call", "data", "text") and r.random() < 0.4:
             s["lead"] = self.gap1(True)     # "label: code" on one line
+        elif prev["blk"] and s["k"] != "braces" and r.random() < 0.12:
+            s["lead"] = self.gap1(True)     # shares its line with the closing brace of the previous statement's block
         elif self.slr and r.random() < self.slr and s["k"] in ("insn", "call") and prev["k"] in ("insn", "call"):
             s["lead"] = [ws(" ")]          # shares the line with its predecessor
         else:
@@ -672,7 +674,10 @@ def build_cases(tier, prop, mc_cases):
         return cid
 
     # 1. the cases TLC generated at design level (with the text the model predicts: checked again by tier 2)
-    sel = rnd.sample(mc_cases, min(len(mc_cases), 2500 if tier == "quick" else 30000))
+    # the small families (statements sharing a line, statement after a closing brace, else placement) are always replayed in full
+    special = [c for c in mc_cases if c.get("special")]
+    rest = [c for c in mc_cases if not c.get("special")]
+    sel = special + rnd.sample(rest, min(len(rest), 2500 if tier == "quick" else 30000))
     for c in sel:
         add({"main.asm": render_file(c["file"]), "o.asm": OTHER_ASM}, c["opts"], c["file"], "tlc")
     # 2. seeded random programs over the whole modelled grammar
